@@ -349,6 +349,68 @@ fn historical(run: &Run) {
     }
 }
 
+/// Optional quoting metrics at their boundary: absent / zero / non-zero are three different signed
+/// values; changing one into another must break the signature and change the hash.
+fn optional_metric_boundaries(run: &Run) {
+    let kp = rigs::fixtures::ed_keypair(1);
+    let me = PeerId::from(kp.public());
+    let ts = SystemTime::now() - Duration::from_secs(30);
+    let densities: [Option<[u8; 32]>; 3] = [None, Some([0u8; 32]), Some([7u8; 32])];
+    let sizes: [Option<u64>; 3] = [None, Some(0), Some(1000)];
+    for (di, d) in densities.iter().enumerate() {
+        for (si, s) in sizes.iter().enumerate() {
+            let mut base = base_quote(&kp, ts);
+            base.quoting_metrics.network_density = *d;
+            base.quoting_metrics.network_size = *s;
+            base.signature = sign(&kp, &base);
+            if !base.check_is_signed_by_claimed_peer(me) {
+                run.violation("quote-verification", "rejects-authentic", format!("an authentic quote with density {di} / size {si} does not verify"), json!({"op":"optional-metrics","density":di,"size":si}));
+            }
+            for (dj, d2) in densities.iter().enumerate() {
+                for (sj, s2) in sizes.iter().enumerate() {
+                    if (di, si) == (dj, sj) {
+                        continue;
+                    }
+                    let mut q = base.clone();
+                    q.quoting_metrics.network_density = *d2;
+                    q.quoting_metrics.network_size = *s2;
+                    let nm = ["absent", "zero", "nonzero"];
+                    let desc = json!({"op":"optional-metrics","from":{"density":(nm[di]),"size":(nm[si])},"to":{"density":(nm[dj]),"size":(nm[sj])}});
+                    run.case(desc.to_string().as_bytes(), true);
+                    if q.check_is_signed_by_claimed_peer(me) {
+                        run.violation("quote-verification", "accepts-altered", format!("changing the optional metrics still verifies: {desc}"), desc.clone());
+                    }
+                    if q.hash() == base.hash() {
+                        run.violation("hash-covers-fields", "same-hash", format!("changing the optional metrics keeps the hash: {desc}"), desc);
+                    }
+                }
+            }
+        }
+    }
+    // integer metrics at zero
+    for f in 0..4 {
+        let mut base = base_quote(&kp, ts);
+        match f {
+            0 => base.quoting_metrics.close_records_stored = 0,
+            1 => base.quoting_metrics.max_records = 0,
+            2 => base.quoting_metrics.received_payment_count = 0,
+            _ => base.quoting_metrics.live_time = 0,
+        }
+        base.signature = sign(&kp, &base);
+        let mut q = base.clone();
+        match f {
+            0 => q.quoting_metrics.close_records_stored = 1,
+            1 => q.quoting_metrics.max_records = 1,
+            2 => q.quoting_metrics.received_payment_count = 1,
+            _ => q.quoting_metrics.live_time = 1,
+        }
+        run.case(format!("zero-metric:{f}").as_bytes(), true);
+        if !base.check_is_signed_by_claimed_peer(me) || q.check_is_signed_by_claimed_peer(me) || q.hash() == base.hash() {
+            run.violation("quote-verification", "accepts-altered", format!("integer metric {f}: 0 -> 1 is not detected"), json!({"op":"zero-metric","field":f}));
+        }
+    }
+}
+
 pub fn main(tier: Option<&str>) {
     let run = Run::new("C13", "exploration", tier);
     run.rule(
@@ -360,6 +422,7 @@ pub fn main(tier: Option<&str>) {
     run.assume("timestamp changes below one second are not judged: the signature covers whole seconds (reported in coverage.subsecond_timestamp_change_still_verifies)");
     run.assume("fixed ed25519 identities n1..n3; one base value per field and one alternative value per field");
     quote_mutations(&run);
+    optional_metric_boundaries(&run);
     proofs(&run);
     expiry(&run);
     historical(&run);
